@@ -82,7 +82,7 @@ PLANS = {
         "0 <= k < size is written and loaded (direct truncation), plus ~30-60 real partial writes of save() per image produced by the kernel "
         "under a lowered RLIMIT_FSIZE; verdict per load: Err required, Ok or panic refutes; non-trivial = distinct images containing a "
         "heap-encoded datum, a vertex with >=2 edges and a live group",
-        (14, 14), (220, 200), floor=10, level="fault_enumeration"),
+        (16, 18), (220, 200), floor=8, level="fault_enumeration"),
     "C10": hist(
         "mixed histories with clone() at random points; the copy not continued becomes a twin in lock-step (every return value incl. "
         "next_id and merge-created ids, digests after every call, lock-step drain); frozen copies must not move while the other graph "
